@@ -1,6 +1,6 @@
 (** Proofs for C18 (model: Num/Vectorize.v). *)
 From Coq Require Import List ZArith NArith Arith Bool String Ascii Lia.
-From Elfi Require Import Num.Seed Num.Vectorize Proofs.C15_Seed.
+From Elfi Require Import Num.Seed Num.Vectorize Proofs.C15_Seed Proofs.C18_Collect.
 Import ListNotations.
 
 (** * A. decidable equality on values, dicts, calls *)
@@ -562,12 +562,20 @@ Definition vec_statement (c : vcase) : Prop :=
       /\ List.length calls = n
       /\ (forall i cl, nth_error calls i = Some cl -> cl = expected_call (v_inputs c) cs (v_kw c) (v_meta c) i)
       /\ v_impl_obj c = v_dtype_false c
+      (* the returned array: one entry per call, collected from the operation's outputs as the dtype argument says
+         (dtype=None: element type = promotion over ALL rows, every entry keeps its own row's value) *)
+      /\ match v_typed c with
+         | Some t => List.length (t_outs t) = n /\ List.length (snd (t_ret t)) = n
+                     /\ typed_statement (t_dtype t) (t_outs t) (t_ret t)
+         | None => True
+         end
   end.
 
 Theorem vok_sound c : vok c = true -> vec_statement c.
 Proof.
   unfold vok, vec_statement. destruct (v_impl c) as [calls|].
-  - intros H. apply andb_true_iff in H as [H H4]. apply andb_true_iff in H as [H H3]. apply andb_true_iff in H as [H1 H2].
+  - intros H. apply andb_true_iff in H as [H H5]. apply andb_true_iff in H as [H H4]. apply andb_true_iff in H as [H H3].
+    apply andb_true_iff in H as [H1 H2].
     apply negb_true_iff in H1. apply Nat.eqb_eq in H2. apply Bool.eqb_prop in H4.
     repeat split; auto.
     + intros j x Hj Hc. destruct (Nat.eq_dec (List.length (rows x)) (batch_len (v_inputs c) (consts0 (v_constants c)) (v_batch_size c))) as [E|E]; [exact E|exfalso].
@@ -575,6 +583,9 @@ Proof.
         by (apply mismatch_from_iff; exists j, x; auto).
       rewrite Hm in H1. discriminate.
     + intros i cl Hi. apply (calls_ok_sound _ _ _ _ _ 0 H3 i cl Hi).
+    + destruct (v_typed c) as [t|]; [|exact I].
+      apply andb_true_iff in H5 as [Hl Ht]. apply Nat.eqb_eq in Hl.
+      split; [congruence|]. split; [rewrite (typed_ok_length _ _ _ Ht); congruence | apply typed_ok_sound; exact Ht].
   - intros H. apply mismatch_from_iff in H. exact H.
 Qed.
 
@@ -584,15 +595,30 @@ Proof. induction n as [|n IH]; intros i; simpl; [reflexivity|]. rewrite call_eqb
 
 Definition vview (r : vresult) : option (list call) := match r with VError => None | VOk _ calls => Some calls end.
 
-(** the model's own output satisfies [vok], for all inputs *)
-Theorem vmodel_ok inputs constants bs kw meta df :
-  vok {| v_inputs := inputs; v_constants := constants; v_batch_size := bs; v_kw := kw; v_meta := meta;
-         v_dtype_false := df; v_impl := vview (run_vectorized inputs constants bs kw meta df); v_impl_obj := df |} = true.
+(** the operation is uninterpreted: ANY function [op] from the call it receives to the typed value it returns.  The model's
+    typed observation = numpy's collection of the outputs of the model's calls (none when numpy raises: rows of different shapes) *)
+Definition dfalse (d : dreq) : bool := match d with DFalse => true | _ => false end.
+
+Definition tview (op : call -> oval) (d : dreq) (r : vresult) : option tobs :=
+  match r with
+  | VOk _ calls => option_map (fun ret => {| t_dtype := d; t_outs := map op calls; t_ret := ret |}) (collect d (map op calls))
+  | VError => None
+  end.
+
+Definition model_case (op : call -> oval) (d : dreq) inputs constants bs kw meta : vcase :=
+  let r := run_vectorized inputs constants bs kw meta (dfalse d) in
+  {| v_inputs := inputs; v_constants := constants; v_batch_size := bs; v_kw := kw; v_meta := meta;
+     v_dtype_false := dfalse d; v_impl := vview r; v_impl_obj := dfalse d; v_typed := tview op d r |}.
+
+(** the model's own output satisfies [vok], for all inputs, every dtype argument and every operation *)
+Theorem vmodel_ok op d inputs constants bs kw meta : vok (model_case op d inputs constants bs kw meta) = true.
 Proof.
-  unfold vok. simpl. rewrite vec_correct. simpl.
+  unfold vok, model_case. simpl. rewrite vec_correct. simpl.
   destruct (mismatch_from 0 inputs (consts0 constants) (batch_len inputs (consts0 constants) bs)) eqn:Em; simpl.
   - reflexivity.
-  - rewrite ?Em, map_length, seq_length, Nat.eqb_refl, calls_ok_map. simpl. destruct df; reflexivity.
+  - rewrite ?Em, map_length, seq_length, Nat.eqb_refl, calls_ok_map, Bool.eqb_reflx. simpl.
+    destruct (collect d _) as [ret|] eqn:Ec; simpl; [|reflexivity].
+    rewrite !map_length, seq_length, Nat.eqb_refl. simpl. apply typed_model_ok. exact Ec.
 Qed.
 
 (** per-row statement for the external command *)
@@ -660,17 +686,13 @@ Qed.
 (** one call of a history on the callable [partial(run_vectorized, op, constants=, dtype=)] *)
 Record hcall := { h_inputs : list value; h_batch_size : option nat; h_kw : dict; h_meta : option dict }.
 
-(** the model's history: every call runs [run_vectorized] on the SAME [constants] / [dtype] (those held by the partial; the first
-    statement of [run_vectorized] copies them) and on its own inputs *)
-Definition model_history (constants : option (list nat)) (df : bool) (calls : list hcall) : history :=
-  map (fun k => CVec {| v_inputs := h_inputs k; v_constants := constants; v_batch_size := h_batch_size k; v_kw := h_kw k;
-                        v_meta := h_meta k; v_dtype_false := df;
-                        v_impl := vview (run_vectorized (h_inputs k) constants (h_batch_size k) (h_kw k) (h_meta k) df);
-                        v_impl_obj := df |}) calls.
+(** the model's history: every call runs [run_vectorized] on the SAME [constants] / [dtype] / operation (those held by the partial; the
+    first statement of [run_vectorized] copies the constants) and on its own inputs *)
+Definition model_history (op : call -> oval) (constants : option (list nat)) (d : dreq) (calls : list hcall) : history :=
+  map (fun k => CVec (model_case op d (h_inputs k) constants (h_batch_size k) (h_kw k) (h_meta k))) calls.
 
-Theorem history_model_ok constants df calls : ok_history (model_history constants df calls) = true.
+Theorem history_model_ok op constants d calls : ok_history (model_history op constants d calls) = true.
 Proof.
   unfold ok_history, model_history. apply forallb_forall. intros c Hin. apply in_map_iff in Hin as [k [<- _]].
   simpl. apply vmodel_ok.
 Qed.
-
